@@ -171,6 +171,6 @@ PROPS = {'text': prop_text, 'table': prop_table}
 
 
 def run(ctx):
-    ctx.run_given('text', text_case(), prop_text, ctx.n(1000, 6000))
+    ctx.run_given('text', text_case(), prop_text, ctx.n(1000, 15000))
     strat = st.fixed_dictionaries({'ops': st.lists(SC.op_strategy(), min_size=1, max_size=6), 'seed': S.u64})
-    ctx.run_given('table', strat, prop_table, ctx.n(300, 1500))
+    ctx.run_given('table', strat, prop_table, ctx.n(300, 4000))
